@@ -1,21 +1,151 @@
 (* C11 - theorems about _clean_up_state with the constants of the CURRENT source
-   (cfg_now / cleanup_now are defined in V2/CleanupRun.v so that the model runs even if a proof breaks). *)
+   (cfg_now / cleanup_now are defined in V2/CleanupRun.v so that the model runs even if a proof breaks).
+
+   The removal condition of the source is `rm cfg_now now s u i`: the instance is done, old
+   enough, not activated (removable) AND its uid is not the parent_uid of a flow state that is
+   still running or activated (needed_parents, computed from the state before the removal loop).
+   The generic theorems of Cleanup_proofs / Cleanup_clock are about `cleanup_gen c P` for a removal
+   condition P fixed before the loop; here they are instantiated with P := rm cfg_now now s. *)
 From Coq Require Import ZArith List String Bool Lia.
 From NG Require Import Gen.C11Consts V2.Cleanup V2.Cleanup_proofs V2.Cleanup_clock V2.CleanupRun.
 Import ListNotations.
 Open Scope string_scope.
 Open Scope Z_scope.
 
+Lemma cleanup_now_unfold now s : cleanup_now now s = cleanup_gen cfg_now (rm cfg_now now s) s.
+Proof. reflexivity. Qed.
+
+Lemma removable_core c now a b : core_eq a b -> removable c now a = removable c now b.
+Proof. intros (_ & E2 & E3 & E4 & _). unfold removable, is_done, old_enough. now rewrite E2, E3, E4. Qed.
+
+Lemma rm_core c now pre : core_pred (rm c now pre).
+Proof. intros u a b H. unfold rm. now rewrite (removable_core c now a b H). Qed.
+
+Lemma filter_ext_in' {A} (f g : A -> bool) (l : list A) : (forall x, f x = g x) -> filter f l = filter g l.
+Proof. intro H. induction l as [|x r IH]; simpl; [reflexivity|]. rewrite H, IH. reflexivity. Qed.
+
+Lemma cleanup_gen_ext c P P' s : (forall u i, P u i = P' u i) -> cleanup_gen c P s = cleanup_gen c P' s.
+Proof.
+  intro H. unfold cleanup_gen, to_remove_gen.
+  rewrite (filter_ext_in' (fun kv => P (fst kv) (snd kv)) (fun kv => P' (fst kv) (snd kv))); [reflexivity|].
+  intros [u i]. apply H.
+Qed.
+
+(* ---- needed_parent_uids *)
+Lemma needed_spec c s u :
+  smem u (needed_parents c s) = true <->
+  exists v iv, In (v, iv) (flows s) /\ keeps_parent c iv = true /\ i_parent iv = Some u.
+Proof.
+  rewrite smem_in. unfold needed_parents. rewrite in_flat_map. split.
+  - intros ([v iv] & Hin & Hx). simpl in Hx. destruct (keeps_parent c iv) eqn:E; [|contradiction].
+    destruct (i_parent iv) as [p|] eqn:Ep; [|contradiction]. destruct Hx as [<-|[]]. exists v, iv. auto.
+  - intros (v & iv & Hin & Hk & Hp). exists (v, iv). split; [exact Hin|]. simpl. rewrite Hk, Hp. now left.
+Qed.
+
+Lemma keeps_core c a b : core_eq a b -> keeps_parent c a = keeps_parent c b.
+Proof. intros (_ & E2 & _ & E4 & _). unfold keeps_parent, is_done. now rewrite E2, E4. Qed.
+
+(* an instance that keeps its parent alive is itself never removable: it is running or activated *)
+Lemma keeps_not_removable c now i :
+  needs_done c = true -> needs_not_activated c = true -> keeps_parent c i = true -> removable c now i = false.
+Proof.
+  intros Hd Ha Hk. unfold removable, keeps_parent in *. rewrite Hd, Ha.
+  apply orb_true_iff in Hk as [Hk|Hk]; apply negb_true_iff in Hk; rewrite Hk; [reflexivity|].
+  now rewrite andb_false_r.
+Qed.
+
+(* the needed parents are the same before and after a clean-up *)
+Lemma needed_agree c P s s' :
+  core_pred P -> NoDup (map fst (flows s)) -> cleanup_gen c P s = Some s' ->
+  (forall v iv, keeps_parent c iv = true -> P v iv = false) ->
+  forall u, smem u (needed_parents c s') = smem u (needed_parents c s).
+Proof.
+  intros HP Hn Hr Hkeep u.
+  destruct (cleanup_frame c P HP s s' Hn Hr) as (_ & Fr & Fb & _).
+  pose proof (cleanup_keys c P s s' Hn Hr) as Hn'.
+  apply Bool.eq_iff_eq_true. rewrite !needed_spec. split.
+  - intros (v & iv' & Hin & Hk & Hp). apply in_slook in Hin; [|exact Hn'].
+    destruct (Fb v iv' Hin) as (iv & Hiv & Hnr). destruct (Fr v iv Hiv Hnr) as (iv2 & Hiv2 & Hf).
+    rewrite Hin in Hiv2. inversion Hiv2; subst iv2. pose proof (frame_core_eq _ _ _ Hf) as Hc.
+    exists v, iv. split; [now apply slook_in|]. split; [rewrite <- (keeps_core c _ _ Hc); exact Hk|].
+    destruct Hc as (_ & _ & _ & _ & E5). congruence.
+  - intros (v & iv & Hin & Hk & Hp). apply in_slook in Hin; [|exact Hn].
+    destruct (Fr v iv Hin (Hkeep v iv Hk)) as (iv' & Hiv' & Hf). pose proof (frame_core_eq _ _ _ Hf) as Hc.
+    exists v, iv'. split; [now apply slook_in|]. split; [rewrite (keeps_core c _ _ Hc); exact Hk|].
+    destruct Hc as (_ & _ & _ & _ & E5). congruence.
+Qed.
+
+Lemma rm_keeps now s : forall v iv, keeps_parent cfg_now iv = true -> rm cfg_now now s v iv = false.
+Proof.
+  intros v iv Hk. unfold rm. rewrite (keeps_not_removable cfg_now now iv eq_refl eq_refl Hk). reflexivity.
+Qed.
+
+(* the removal condition computed from the cleaned state agrees with the one of the pre-state *)
+Lemma rm_agree now now' s s' :
+  NoDup (map fst (flows s)) -> cleanup_now now s = Some s' ->
+  forall u i, rm cfg_now now' s' u i = rm cfg_now now' s u i.
+Proof.
+  intros Hn Hr u i. unfold rm.
+  rewrite (needed_agree cfg_now (rm cfg_now now s) s s' (rm_core _ _ _) Hn Hr (rm_keeps now s) u). reflexivity.
+Qed.
+
+(* ---- what is removed *)
+Lemma rm_meaning now s u i :
+  rm cfg_now now s u i = true ->
+  (i_status i = "FINISHED" \/ i_status i = "STOPPED") /\ i_activated i = 0 /\
+  cleanup_age_s * 1000000 < now - i_updated i /\
+  (forall v iv, In (v, iv) (flows s) -> i_parent iv = Some u ->
+     (i_status iv = "FINISHED" \/ i_status iv = "STOPPED") /\ i_activated iv = 0).
+Proof.
+  unfold rm. intro H. apply andb_true_iff in H as [H1 H2].
+  destruct (removable_meaning _ _ _ _ now i H1) as (A & B & C'). split; [exact A|]. split; [exact B|]. split; [exact C'|].
+  intros v iv Hin Hp. change (needs_unneeded cfg_now) with cleanup_needs_unneeded in H2.
+  assert (Hnn : smem u (needed_parents cfg_now s) = false).
+  { revert H2. unfold cleanup_needs_unneeded. intro H2. now apply negb_true_iff in H2. }
+  destruct (keeps_parent cfg_now iv) eqn:Ek.
+  - exfalso. assert (smem u (needed_parents cfg_now s) = true) by (apply needed_spec; eauto). congruence.
+  - unfold keeps_parent in Ek. apply orb_false_iff in Ek as [E1 E2].
+    apply negb_false_iff in E1, E2. apply Z.eqb_eq in E2. split; [|exact E2].
+    unfold is_done, smem in E1. simpl in E1.
+    apply orb_true_iff in E1 as [E1|E1]; [left; now apply String.eqb_eq|].
+    apply orb_true_iff in E1 as [E1|E1]; [right; now apply String.eqb_eq|discriminate].
+Qed.
+
 Lemma only_done_now now s s' :
   NoDup (map fst (flows s)) -> cleanup_now now s = Some s' ->
   (forall u i, slook (flows s) u = Some i -> slook (flows s') u = None ->
      (i_status i = "FINISHED" \/ i_status i = "STOPPED") /\ i_activated i = 0 /\
-     cleanup_age_s * 1000000 < now - i_updated i) /\
+     cleanup_age_s * 1000000 < now - i_updated i /\
+     (forall v iv, In (v, iv) (flows s) -> i_parent iv = Some u ->
+        (i_status iv = "FINISHED" \/ i_status iv = "STOPPED") /\ i_activated iv = 0)) /\
   (forall a x, slook (actions s) a = Some x -> slook (actions s') a = None ->
      forall u i, In (u, i) (flows s') -> ~ In a (i_actions i)).
 Proof.
-  intros Hd Hr. destruct (cleanup_only_done cfg_now now s s' Hd Hr) as [H1 H2]. split; [|exact H2].
-  intros u i Hi Hn. exact (removable_meaning _ _ _ now i (H1 u i Hi Hn)).
+  intros Hd Hr. destruct (cleanup_only_done cfg_now _ (rm_core _ now s) s s' Hd Hr) as [H1 H2]. split; [|exact H2].
+  intros u i Hi Hn. exact (rm_meaning now s u i (H1 u i Hi Hn)).
+Qed.
+
+Lemma frame_now now s s' :
+  NoDup (map fst (flows s)) -> cleanup_now now s = Some s' ->
+  s_rest s' = s_rest s /\
+  (forall u i, slook (flows s) u = Some i -> rm cfg_now now s u i = false ->
+     exists i', slook (flows s') u = Some i' /\ frame_rel (fun x => slook (flows s') x = None) i i') /\
+  (forall u i', slook (flows s') u = Some i' ->
+     exists i, slook (flows s) u = Some i /\ rm cfg_now now s u i = false) /\
+  (forall a x, slook (actions s') a = Some x -> slook (actions s) a = Some x) /\
+  (forall u i a, In (u, i) (flows s') -> In a (i_actions i) -> slook (actions s') a <> None) /\
+  (forall f l', slook (by_flow s') f = Some l' ->
+     exists l, slook (by_flow s) f = Some l /\ (forall x, In x l' -> In x l) /\
+               (forall x, In x l -> ~ In x l' -> slook (flows s') x = None)) /\
+  (forall f l, slook (by_flow s) f = Some l -> exists l', slook (by_flow s') f = Some l').
+Proof. intros Hd Hr. exact (cleanup_frame cfg_now _ (rm_core _ now s) s s' Hd Hr). Qed.
+
+Lemma idempotent_now now s s' :
+  NoDup (map fst (flows s)) -> cleanup_now now s = Some s' -> cleanup_now now s' = Some s'.
+Proof.
+  intros Hd Hr. rewrite cleanup_now_unfold.
+  rewrite (cleanup_gen_ext cfg_now (rm cfg_now now s') (rm cfg_now now s) s' (rm_agree now now s s' Hd Hr)).
+  exact (cleanup_idempotent cfg_now _ (rm_core _ now s) s s' Hd Hr).
 Qed.
 
 Lemma candidates_now now s s' (ix : index) :
@@ -26,7 +156,11 @@ Lemma candidates_now now s s' (ix : index) :
     Forall2 (fun a b => exists fu hu i i', a = Some (fu, hu, i) /\ b = Some (fu, hu, i') /\
                                            frame_rel (fun x => slook (flows s') x = None) i i')
             (candidates ix s name) (candidates ix s' name).
-Proof. intros Hd Hr. exact (cleanup_candidates cfg_now now s s' Hd Hr ix eq_refl). Qed.
+Proof.
+  intros Hd Hr Hix. apply (cleanup_candidates cfg_now _ (rm_core _ now s) s s' Hd Hr ix).
+  intros name es e He Hin. destruct (Hix name es e He Hin) as (i & Hi & Hdn & Hh). exists i. split; [exact Hi|]. split; [|exact Hh].
+  unfold rm, removable. change (needs_done cfg_now) with cleanup_needs_done. unfold cleanup_needs_done. now rewrite Hdn.
+Qed.
 
 (* the reference closure (with the per-flow listing) is an invariant of the clean-up; on such
    states the clean-up never raises *)
@@ -42,12 +176,12 @@ Proof. apply refs_okb_ok. vm_compute. reflexivity. Qed.
 Lemma refs_ok_preserved now s s' : refs_ok s -> cleanup_now now s = Some s' -> refs_ok s'.
 Proof.
   intros (Hn & Hc & Hl) Hr. split; [exact (cleanup_keys _ _ _ _ Hn Hr)|]. split.
-  - exact (cleanup_preserves_closed cfg_now now s s' Hn Hr eq_refl eq_refl Hc).
-  - exact (cleanup_preserves_listed _ _ _ _ Hn Hr Hl).
+  - exact (cleanup_preserves_closed cfg_now _ (rm_core _ now s) s s' Hn Hr eq_refl eq_refl Hc).
+  - exact (cleanup_preserves_listed _ _ _ _ (rm_core _ now s) Hn Hr Hl).
 Qed.
 
 Lemma total_now now s : refs_ok s -> exists s', cleanup_now now s = Some s'.
-Proof. intros (Hn & Hc & Hl). exact (cleanup_total cfg_now now s Hn Hc Hl). Qed.
+Proof. intros (Hn & Hc & Hl). exact (cleanup_total cfg_now _ s Hn Hc Hl). Qed.
 
 Lemma lookups_now now s s' :
   refs_ok s -> cleanup_now now s = Some s' ->
@@ -56,12 +190,20 @@ Lemma lookups_now now s s' :
        exists ix ix', slook (flows s) x = Some ix /\ slook (flows s') x = Some ix' /\
                       frame_rel (fun y => slook (flows s') y = None) ix ix') /\
     (forall x, In x (i_children i) -> ~ In x (i_children i') ->
-       exists ix, slook (flows s) x = Some ix /\ removable cfg_now now ix = true /\ slook (flows s') x = None) /\
+       exists ix, slook (flows s) x = Some ix /\ rm cfg_now now s x ix = true /\ slook (flows s') x = None) /\
     (forall k l' x, slook (i_scopes i') k = Some l' -> In x l' ->
        exists ix ix', slook (flows s) x = Some ix /\ slook (flows s') x = Some ix' /\
                       frame_rel (fun y => slook (flows s') y = None) ix ix') /\
     (forall a, In a (i_actions i') -> exists act, slook (actions s) a = Some act /\ slook (actions s') a = Some act).
-Proof. intros (Hn & Hc & _) Hr. exact (cleanup_lookups cfg_now now s s' Hn Hr eq_refl eq_refl Hc). Qed.
+Proof.
+  intros (Hn & Hc & _) Hr. exact (cleanup_lookups cfg_now _ (rm_core _ now s) s s' Hn Hr eq_refl eq_refl Hc).
+Qed.
+
+Lemma rm_mono t1 t2 s u i : t1 <= t2 -> rm cfg_now t1 s u i = true -> rm cfg_now t2 s u i = true.
+Proof.
+  intros Ht H. unfold rm in *. apply andb_true_iff in H as [H1 H2]. rewrite H2.
+  rewrite (removable_mono cfg_now t1 t2 i eq_refl Ht H1). reflexivity.
+Qed.
 
 Lemma later_clock_now t1 t2 s s1 s12 s2 :
   t1 <= t2 -> refs_ok s ->
@@ -78,14 +220,21 @@ Lemma later_clock_now t1 t2 s s1 s12 s2 :
   (forall f l12 l2, slook (by_flow s12) f = Some l12 -> slook (by_flow s2) f = Some l2 -> forall x, In x l12 <-> In x l2) /\
   s_rest s12 = s_rest s2.
 Proof.
-  intros Ht (Hn & Hc & _) R1 R12 R2. unfold cleanup_now in *. split; [|split; [|split; [|split]]].
-  - intro u. exact (later_same_domain cfg_now t1 t2 s s1 s12 s2 eq_refl Ht Hn R1 R12 R2 u).
+  intros Ht (Hn & Hc & _) R1 R12 R2.
+  (* the second clean-up computes its needed parents from s1: the same condition as from s *)
+  rewrite cleanup_now_unfold in R12.
+  rewrite (cleanup_gen_ext cfg_now (rm cfg_now t2 s1) (rm cfg_now t2 s) s1 (rm_agree t1 t2 s s1 Hn R1)) in R12.
+  rewrite cleanup_now_unfold in R1, R2.
+  pose proof (rm_core cfg_now t1 s) as HP1. pose proof (rm_core cfg_now t2 s) as HP2.
+  pose proof (fun u i => rm_mono t1 t2 s u i Ht) as Hm.
+  split; [|split; [|split; [|split]]].
+  - intro u. exact (later_same_domain cfg_now _ _ HP1 HP2 Hm s s1 s12 s2 Hn R1 R12 R2 u).
   - intros u i12 i2 H1 H2. split.
-    + exact (later_same_instance cfg_now t1 t2 s s1 s12 s2 Hn R1 R12 R2 u i12 i2 H1 H2).
-    + exact (later_same_lists cfg_now t1 t2 s s1 s12 s2 eq_refl Ht Hn R1 R12 R2 u i12 i2 eq_refl eq_refl Hc H1 H2).
-  - intro a. exact (later_same_actions cfg_now t1 t2 s s1 s12 s2 eq_refl Ht Hn R1 R12 R2 a).
-  - exact (later_same_by_flow cfg_now t1 t2 s s1 s12 s2 eq_refl Ht Hn R1 R12 R2 eq_refl eq_refl Hc).
-  - exact (later_same_rest cfg_now t1 t2 s s1 s12 s2 Hn R1 R12 R2).
+    + exact (later_same_instance cfg_now _ _ HP1 HP2 s s1 s12 s2 Hn R1 R12 R2 u i12 i2 H1 H2).
+    + exact (later_same_lists cfg_now _ _ HP1 HP2 Hm s s1 s12 s2 Hn R1 R12 R2 u i12 i2 eq_refl eq_refl Hc H1 H2).
+  - intro a. exact (later_same_actions cfg_now _ _ HP1 HP2 Hm s s1 s12 s2 Hn R1 R12 R2 a).
+  - exact (later_same_by_flow cfg_now _ _ s s1 s12 s2 HP1 HP2 Hm Hn R1 R12 R2 eq_refl eq_refl Hc).
+  - exact (later_same_rest cfg_now _ _ HP1 HP2 s s1 s12 s2 Hn R1 R12 R2).
 Qed.
 
 (* the hypotheses are inhabited: the example of Cleanup.v under the constants of the source *)
@@ -93,3 +242,16 @@ Example cleanup_now_example :
   exists s', cleanup_now 10000000 ex_state = Some s' /\ slook (flows s') "a1" = None /\
              slook (flows s') "b1" <> None /\ slook (actions s') "act2" = None.
 Proof. eexists. split; [vm_compute; reflexivity|]. repeat split; vm_compute; congruence. Qed.
+
+(* an ended flow that is the parent of a running flow is kept, however old *)
+Definition ex_parent_state : state :=
+  mkState
+    [ ("p", mkInst "p" "FINISHED" 0 0 None [] [] [] [] 0);
+      ("c", mkInst "c" "STARTED" 0 0 (Some "p") [] [] [] [] 1);
+      ("q", mkInst "q" "FINISHED" 0 0 None [] [] [] [] 2) ]
+    [ ("p", ["p"]); ("c", ["c"]); ("q", ["q"]) ] [] 0.
+
+Example needed_parent_kept :
+  exists s', cleanup_now 100000000 ex_parent_state = Some s' /\
+             slook (flows s') "p" <> None /\ slook (flows s') "q" = None.
+Proof. eexists. split; [vm_compute; reflexivity|]. split; vm_compute; congruence. Qed.
